@@ -1,1 +1,9 @@
 //! verification hooks used by the check of property C20
+//!
+//! The harness renders diagnostics exactly as `numbat-wasm` does (`codespan_reporting::term::emit`
+//! into an `HtmlWriter`) and wraps the writer in a recording `WriteColor`. It needs the two
+//! crates numbat itself links against, so they are re-exported here (same versions, no new code).
+
+pub use codespan_reporting;
+#[cfg(feature = "html-formatter")]
+pub use termcolor;
